@@ -385,6 +385,13 @@ func (a *BinArtifact) ApplyBin(t *BNode, op, arg string, rng *rand.Rand, inner I
 		t.Parent.Kids = append(append([]*BNode{}, t.Parent.Kids[:i]...), t.Parent.Kids[i+1:]...)
 	case "DupNode":
 		t.Twice = true
+	case "DropTail":
+		// the artifact ends right after this element: drop the following siblings at every level
+		// (enclosing length words are recomputed from what is left)
+		for n := t; n.Parent != nil; n = n.Parent {
+			i := n.index()
+			n.Parent.Kids = append([]*BNode{}, n.Parent.Kids[:i+1]...)
+		}
 	case "Repeat":
 		k, _ := strconv.Atoi(arg)
 		i := t.index()
